@@ -3,10 +3,16 @@
 // pairs by the Kani harness kani/c02_log_header.rs (complete).
 pub mod log {
     use vstd::prelude::*;
-    #[derive(Copy, Clone, PartialEq, Eq, Structural)]
+    // (same-type `==` is specified by hand below: Verus' `Structural` derive on these two enums makes unit c03_filters die with an
+    //  internal error of the verifier, "VerusErasureCtxt has not been initialized")
+    #[derive(Copy, Clone)]
     pub enum Level { Error = 1, Warn, Info, Debug, Trace }
-    #[derive(Copy, Clone, PartialEq, Eq, Structural)]
+    #[derive(Copy, Clone)]
     pub enum LevelFilter { Off, Error, Warn, Info, Debug, Trace }
+    impl PartialEq for Level { #[verifier::external_body] fn eq(&self, o: &Level) -> (r: bool) ensures r == (*self == *o) { unimplemented!() } }
+    impl Eq for Level {}
+    impl PartialEq for LevelFilter { #[verifier::external_body] fn eq(&self, o: &LevelFilter) -> (r: bool) ensures r == (*self == *o) { unimplemented!() } }
+    impl Eq for LevelFilter {}
     pub open spec fn lrank(l: Level) -> int { match l { Level::Error => 1, Level::Warn => 2, Level::Info => 3, Level::Debug => 4, Level::Trace => 5 } }
     pub open spec fn frank(l: LevelFilter) -> int { match l { LevelFilter::Off => 0, LevelFilter::Error => 1, LevelFilter::Warn => 2, LevelFilter::Info => 3, LevelFilter::Debug => 4, LevelFilter::Trace => 5 } }
     impl PartialEq<LevelFilter> for Level { #[verifier::external_body] fn eq(&self, o: &LevelFilter) -> (r: bool) ensures r == (lrank(*self) == frank(*o)) { unimplemented!() } }
